@@ -61,7 +61,7 @@ TARGETS = [
     ("chipfiring/CFOrientation.py", "CFOrientation", "set_orientation"), ("chipfiring/CFOrientation.py", "CFOrientation", "check_fullness"),
     ("chipfiring/CFOrientation.py", "CFOrientation", "get_in_degree"), ("chipfiring/CFOrientation.py", "CFOrientation", "get_out_degree"),
     ("chipfiring/CFOrientation.py", "CFOrientation", "get_orientation"), ("chipfiring/CFOrientation.py", "CFOrientation", "is_source"), ("chipfiring/CFOrientation.py", "CFOrientation", "is_sink"),
-    ("chipfiring/CFConfig.py", "CFConfigMoves", "get_degree_at"), ("chipfiring/CFConfig.py", "CFConfigMoves", "is_non_negative"), ("chipfiring/CFConfig.py", "CFConfigMoves", "get_degree_sum"), ("chipfiring/CFConfig.py", "CFConfigMoves", "get_q_underlying_degree"),
+    ("chipfiring/CFConfig.py", "CFConfigMoves", "__init__"), ("chipfiring/CFConfig.py", "CFConfigMoves", "get_degree_at"), ("chipfiring/CFConfig.py", "CFConfigMoves", "is_non_negative"), ("chipfiring/CFConfig.py", "CFConfigMoves", "get_degree_sum"), ("chipfiring/CFConfig.py", "CFConfigMoves", "get_q_underlying_degree"),
     ("chipfiring/CFConfig.py", "CFConfigMoves", "set_fire"), ("chipfiring/CFConfig.py", "CFConfigMoves", "lending_move"), ("chipfiring/CFConfig.py", "CFConfigMoves", "borrowing_move"),
 ]
 class Unsupported(Exception): pass
@@ -91,7 +91,9 @@ class Fn:
     def fresh(self, p="t"): self.tmp += 1; return "%s%d_" % (p, self.tmp)
     def field(self, e, write=False):
         if getattr(self, "graph_alias", False) and not write and ast.unparse(e) in ("self.graph.vertices", "self.graph.graph"):
-            return "graph_" + ast.unparse(e).rsplit(".", 1)[1], ("set" if ast.unparse(e).endswith("vertices") else "dictD")
+            nm_ = self.graph_alias + "_" + ast.unparse(e).rsplit(".", 1)[1]
+            if nm_ not in [p_ for p_, _ in self.params]: bad(e, "the constructor's argument is not seen through " + nm_)
+            return nm_, ("set" if nm_.endswith("vertices") else "dictD")
         f = FIELDS[self.cls].get(ast.unparse(e))
         if not f: return None
         if f[0] not in self.reads: self.reads.append(f[0])
@@ -206,6 +208,10 @@ class Fn:
             if not callee or callee.writes or callee.can_raise: bad(e, "call of an untranslated / impure method in an expression")
             args = self.call_args(callee, e)
             return "(%s_%s %s)" % (self.cls, e.func.attr, " ".join(args)), callee.rty
+        if isinstance(e, ast.BinOp) and isinstance(e.op, ast.Sub) and isinstance(e.right, ast.Set) and len(e.right.elts) == 1:
+            a, ta = self.expr(e.left); k_, tk_ = self.expr(e.right.elts[0])
+            if ta != "set" or tk_ != "key": bad(e, "set difference")
+            return "(filter (fun x_ => negb (Nat.eqb x_ %s)) %s)" % (k_, a), "set"
         if isinstance(e, ast.BinOp):
             a, ta = self.expr(e.left); b, tb = self.expr(e.right)
             op = {ast.Add: "+", ast.Sub: "-", ast.Mult: "*"}.get(type(e.op))
@@ -329,7 +335,9 @@ class Fn:
                 and s.value.func.value.id in self.bookkeeping and len(s.value.args) == 1 and isinstance(s.value.args[0], ast.Name) and s.value.args[0].id in self.bookkeeping: return K()
         if isinstance(s, ast.AnnAssign) and s.value is not None and s.simple == 0:
             s = ast.copy_location(ast.Assign(targets=[s.target], value=s.value), s); u = ast.unparse(s)
-        if isinstance(s, ast.Assign) and u == "self.graph = graph" and self.node.name == "__init__" and self.env.get("graph") == "graphobj": self.graph_alias = True; return K()      # the new object's graph IS the argument
+        if isinstance(s, ast.Assign) and u == "self.graph = graph" and self.node.name == "__init__" and self.env.get("graph") == "graphobj": self.graph_alias = "graph"; return K()
+        if isinstance(s, ast.Assign) and u == "self.divisor = divisor" and self.node.name == "__init__" and self.env.get("divisor") == "divparam": return K()       # the configuration wraps the argument itself
+        if isinstance(s, ast.Assign) and u == "self.graph = divisor.graph" and self.node.name == "__init__" and self.env.get("divisor") == "divparam": self.graph_alias = "divisor_graph"; return K()      # the new object's graph IS the argument
         if isinstance(s, ast.Raise): self.can_raise = True; return "EXN_"
         if isinstance(s, ast.Return):
             if s.value is None: bad(s, "bare return")
@@ -384,7 +392,7 @@ class Fn:
                 self.env[tg.id] = ty; body = K(); self.pending = pre
                 return self.wrap("let %s := %s in\n  %s" % (tg.id, t, body))
             if isinstance(tg, ast.Subscript): return self.store(s, tg, None, s.value, K)
-            if isinstance(tg, ast.Attribute) and self.field(tg) and self.field(tg)[1] in ("Z", "bool", "dictZ", "dictD", "set"):
+            if isinstance(tg, ast.Attribute) and self.field(tg) and self.field(tg)[1] in ("Z", "bool", "dictZ", "dictD", "set", "key"):
                 f = self.field(tg, write=True)
                 if isinstance(s.value, ast.Dict) and not s.value.keys and f[1] in ("dictZ", "dictD"): t, ty = "[]", f[1]       # {}
                 else: t, ty = self.expr(s.value)
@@ -587,7 +595,7 @@ class Fn:
                 if tgt_ is None or ast.unparse(tgt_) != inv[f_] or inv[f_] in ast.unparse(first.value): bad(n, "a constructor reads the field %s before assigning it" % f_)
                 self.reads.remove(f_)
                 # (a `raise` before the assignment leaves no object behind; the state an exception carries out of a constructor is a placeholder)
-                body = "let %s := %s in\n  %s" % (f_, {"Z": "0", "bool": "false", "dictZ": "(@nil (nat * Z))", "dictD": "(@nil (nat * dictZ))", "set": "(@nil nat)"}[FIELDS[self.cls][inv[f_]][1]], body)
+                body = "let %s := %s in\n  %s" % (f_, {"Z": "0", "bool": "false", "key": "0%nat", "dictZ": "(@nil (nat * Z))", "dictD": "(@nil (nat * dictZ))", "set": "(@nil nat)"}[FIELDS[self.cls][inv[f_]][1]], body)
         opt = self.can_raise
         ftypes0 = {v[0]: COQTY[v[1]] for v in FIELDS[self.cls].values()}
         wt = " * ".join(ftypes0[w] for w in self.writes) if self.writes else "unit"          # the state an exception leaves behind: the written fields
